@@ -19,15 +19,14 @@ MCInit == st = <<"init", "", "", 0>>
 PickFam == /\ st[1] = "init"
            /\ \/ \E P \in ParentIds : st' = <<"P", P, "", 0>>
               \/ \E k \in JudgedKinds : \E s \in SitesFor(k, Thorough) : st' = <<"K", k, s, 0>>
-              \/ \E r \in {"module", "submodule"}, part \in {"base", "rev", "ext"}, ch \in 0..7 : st' = <<"O", r, part, ch>>
+              \/ \E r \in {"module", "submodule"}, part \in {"base", "rev", "ext"}, ch \in 0..3 : st' = <<"O", r, part, ch>>
               \/ \E k \in JudgedKinds : st' = <<"W", k, OneSite(k), 0>>
 PickCard == st[1] = "P" /\ \E C \in ExtOrKw : \E n \in CardCounts(st[2], C, MaxCount) : st' = <<"card", st[2], C, n>>
 PickArg == st[1] = "K" /\ \E a \in Cands(st[2]) : st' = <<"arg", st[2], st[3], a>>
 OrderSet(root, part) == IF part = "base" THEN OrderTrees(root) \cup RevTrees(root)
                         ELSE IF part = "rev" THEN RevInterleaved(root) ELSE OrderInterleaved(root, Thorough)
 \* (the worker that expands a state also checks its successors: 8 chunks per set keep all workers busy)
-PickOrder == st[1] = "O" /\ LET q == SetToSeq(OrderSet(st[2], st[3])) IN
-                            \E i \in {j \in 1..Len(q) : j % 8 = st[4]} : st' = <<"order", st[2], q[i], 0>>
+PickOrder == st[1] = "O" /\ \E t \in {x \in OrderSet(st[2], st[3]) : Len(x.subs) % 4 = st[4]} : st' = <<"order", st[2], t, 0>>
 PickWs == st[1] = "W" /\ \E a \in WsCands(st[2]) : st' = <<"arg", st[2], st[3], a>>
 MCNext == PickFam \/ PickCard \/ PickArg \/ PickOrder \/ PickWs
 
